@@ -20,7 +20,28 @@ import props  # noqa: E402
 def merge_stage(results, acc):
     for rc, j, tail in results:
         if j is None:
-            acc["dead_shards"].append({"rc": rc, "tail": tail[-1500:]})
+            ds = {"rc": rc, "tail": tail[-1500:]}
+            # a shard that died inside a library call left "<signal>\n<witness json>" next to its output: the call in
+            # flight did not return normally, which every property counts as a violation once it reproduces on replay
+            if tail.startswith("CRASH-CASE "):
+                body = tail[len("CRASH-CASE "):]
+                try:
+                    sig, rest = body.split("\n", 1)
+                    w, _ = json.JSONDecoder().raw_decode(rest.lstrip())
+                    what = "%s" % (w.get("history", [{}])[-1].get("op") if w.get("history") else w.get("kind", "call"))
+                    detail = ""
+                    for key in ("Assert at", "FAIL:", "what():", "runtime error", "ERROR: AddressSanitizer"):
+                        for ln in tail.splitlines():
+                            if key in ln:
+                                detail += " " + ln.strip()[:200]
+                                break
+                    ds["crash_violation"] = {
+                        "class": "%s/crash/signal%s:%s" % (acc.get("prop", "?"), sig.strip(), what),
+                        "summary": "library call did not return normally (signal %s)%s; case %s" % (sig.strip(), detail, json.dumps(w)[:600]),
+                        "witness": w, "size": len(json.dumps(w))}
+                except Exception as e:  # unparsable crash file: stays a harness error
+                    ds["crash_parse_error"] = repr(e)
+            acc["dead_shards"].append(ds)
             continue
         acc["evaluations"] += j.get("evaluations", 0)
         acc["nontrivial"] += j.get("nontrivial", 0)
@@ -53,7 +74,7 @@ def confirm(exe, v, stage, timeout=120):
     try:
         for _ in range(2):
             try:
-                r = subprocess.run([exe] + stage.get("replay_args", stage["args"]) + ["--replay", p],
+                r = subprocess.run((exe if isinstance(exe, list) else [exe]) + stage.get("replay_args", stage["args"]) + ["--replay", p],
                                    stdout=subprocess.PIPE, stderr=subprocess.STDOUT, text=True,
                                    timeout=timeout, env=dict(os.environ, **stage.get("env", {})))
                 out = r.stdout[-2000:]
@@ -98,6 +119,9 @@ def main():
             return 0
     built = []
     for st in stages:
+        if st.get("prebuilt"):  # a stage implemented by a script (it builds what it needs itself)
+            built.append(["/usr/bin/python3", st["prebuilt"]] if st["prebuilt"].endswith(".py") else st["prebuilt"])
+            continue
         ok, exe, msg = vlib.build_driver(st["driver"], st["config"], st["sources"],
                                          extra_flags=st.get("flags", ()), plain_sources=st.get("plain_sources", ()))
         if not ok:
@@ -120,7 +144,7 @@ def main():
                 fd, p = tempfile.mkstemp(suffix=".json")
                 with os.fdopen(fd, "w") as fh:
                     json.dump(w, fh)
-                r = subprocess.run([exe] + st.get("replay_args", st["args"]) + ["--replay", p],
+                r = subprocess.run((exe if isinstance(exe, list) else [exe]) + st.get("replay_args", st["args"]) + ["--replay", p],
                                    env=dict(os.environ, **st.get("env", {})))
                 os.unlink(p)
                 return 1 if r.returncode != 0 else 0
@@ -140,9 +164,12 @@ def main():
         res = vlib.run_shards(exe, args, st.get("shards", vlib.NPROC), left, env=st.get("env"))
         before = len(acc["violations"])
         nd = len(acc["dead_shards"])
+        acc["prop"] = a.prop
         merge_stage(res, acc)
         for ds in acc["dead_shards"][nd:]:
             ds["stage"] = st["name"]
+            if ds.get("crash_violation"):
+                acc["violations"].append(ds["crash_violation"])
         # confirm candidates of this stage (one per class is enough for reporting; cap the work)
         seen_cls = {}
         for v in acc["violations"][before:]:
@@ -168,6 +195,12 @@ def main():
         if ds["rc"] == -9:
             acc["exhaustive"] = False
             acc["notes"].append("shard of stage %s hit the deadline; results below the cap only" % ds.get("stage"))
+        elif ds.get("crash_violation"):
+            acc["exhaustive"] = False
+            acc["notes"].append("shard of stage %s died inside a library call; attributed to %s" % (ds.get("stage"), ds["crash_violation"]["class"]))
+            if not any(v.get("class") == ds["crash_violation"]["class"] for v in confirmed):
+                # the crash did not reproduce on replay: cannot be blamed on the library with confidence
+                broken = "shard crashed in stage %s but the case did not reproduce on replay: %s" % (ds.get("stage"), ds["tail"][-300:])
         else:
             broken = "shard died rc=%s in stage %s: %s" % (ds["rc"], ds.get("stage"), ds["tail"][-500:])
 
